@@ -814,8 +814,19 @@ func propC15(c *Ctx) {
 		}
 		return fmt.Sprintf("%d %d %d", win[i][0], win[i][1], win[i][2])
 	}
-	for fi := -1; fi < len(win); fi += stepF {
-		for ti := -1; ti < len(win); ti += stepF {
+	// bound indices: the stepped grid plus, always, every special date appended above (the zero value of Date, year 0,
+	// leap-day neighbours) — in the quick tier the step must not skip them
+	var idx []int
+	for i := -1; i < len(win); i += stepF {
+		idx = append(idx, i)
+	}
+	for i := len(win) - 12; i < len(win); i++ {
+		if (i+1)%stepF != 0 {
+			idx = append(idx, i)
+		}
+	}
+	for _, fi := range idx {
+		for _, ti := range idx {
 			var fp, tp *date.Date
 			var fo, to int64
 			if fi >= 0 {
@@ -856,7 +867,7 @@ func propC15(c *Ctx) {
 			}
 		}
 	}
-	c.NT(int64((len(win)/stepF + 1) * (len(win)/stepF + 1) * len(win)))
+	c.NT(int64(len(idx) * len(idx) * len(win)))
 	// random triples over years 0000-9999
 	for i := 0; i < 20000; i++ {
 		rd := func() [3]int {
@@ -883,6 +894,12 @@ func propC15(c *Ctx) {
 		}
 		if i%4 == 0 {
 			p = [3]int{a[0], a[1], 1 + c.R.Intn(dim(a[0], a[1]))}
+		}
+		if i%37 == 0 && i%2 == 0 { // a zero-valued lower bound is still a bound: probe just before it
+			p = [][3]int{{0, 12, 31}, {0, 1, 1}, {-500, 3, 1}, {1, 1, 1}}[(i/74)%4]
+		}
+		if i%37 == 1 && i%2 == 0 { // and a zero-valued upper bound
+			p = [][3]int{{1, 1, 2}, {1, 2, 1}, {2024, 2, 29}, {1, 1, 1}}[(i/74)%4]
 		}
 		mode := c.R.Intn(4)
 		var fp, tp *date.Date
